@@ -139,6 +139,14 @@ def corpus():
         for kind in KINDS:
             if tr == "tcp":
                 out.append(case_dict(kind, tr, False, 2, "c1:g p1 c2:g p2 p1 a1 c3:g p3 g2 X".split(), opts=["hifd"]))
+        # an authenticator that hands back a NEW socket object (what SSL wrapping does): close() must find the socket the client
+        # is served on; departures and rejections leave nothing
+        for kind in KINDS:
+            out.append(case_dict(kind, tr, True, 2, "c1:g p1 c2:b c3:g p3 a1 c4:s X k4:g p3".split(), opts=["wrap"]))
+        # descriptor 0 is free in the server process: the first client's socket gets it (in-process kinds, tcp)
+        if tr == "tcp":
+            for kind in ("pool", "threaded"):
+                out.append(case_dict(kind, tr, False, 2, "c1:g p1 c2:g p2 p1 a1 c3:g p3 g2 X".split(), opts=["fd0"]))
         # a service whose on_disconnect RAISES: every client is still closed by close(), every hook still runs once
         for kind in KINDS:
             out.append(case_dict(kind, tr, False, 2, "c1:g p1 c2:g p2 c3:g a1 X X".split(), opts=["rh"]))
@@ -174,14 +182,43 @@ def oracle_only_cases():
         # the accept thread of a pool held in a slow log sink while it admits a client whose first request is already there
         dict(kind="scenario", scenario="log-gate", server="pool", transport="tcp", auth=False, nb=2, ops=[]),
         dict(kind="scenario", scenario="log-gate", server="pool", transport="unix", auth=False, nb=2, ops=[]),
-    ]
+    ] + [dict(kind="scenario", scenario="close-unstarted", server=k, transport="tcp", auth=False, nb=2, ops=[])
+         for k in ("pool", "threaded", "oneshot")]
 
 
 def scenario_case(case, ceiling=servers.CEILING):
     """scenarios that need the harness inside one operation of the server (not expressible as a sequence of quiescent states)"""
     if case.get("scenario") == "log-gate":
         return log_gate_scenario(case["transport"], ceiling)
+    if case.get("scenario") == "close-unstarted":
+        return close_unstarted_scenario(case["server"])
     raise ValueError("unknown scenario %r" % (case,))
+
+
+def close_unstarted_scenario(kind):
+    """close() of a server that was never started, twice: returns, the listener is closed"""
+    import rpyc
+    from rpyc.utils import server as S
+    cls = dict(threaded=S.ThreadedServer, pool=S.ThreadPoolServer, oneshot=S.OneShotServer, forking=S.ForkingServer)[kind]
+    try:
+        srv = cls(rpyc.VoidService, hostname="127.0.0.1", port=0, auto_register=False, logger=servers.quiet_logger())
+    except OSError as ex:
+        raise servers.Infra("cannot bind: %s" % ex)
+    try:
+        for n in ("first", "second"):
+            try:
+                srv.close()
+            except Exception as ex:  # noqa
+                return ("the %s close() of a %s server that was never started raised %s: %s" % (n, kind, type(ex).__name__, ex),
+                        "C17:%s:close-raises" % kind)
+        if srv.listener.fileno() != -1:
+            return "the listener of a closed, never-started server is open", "C17:%s:listener-open-after-close" % kind
+        return None
+    finally:
+        try:
+            srv.listener.close()
+        except Exception:  # noqa
+            pass
 
 
 def log_gate_scenario(transport, ceiling):
